@@ -89,10 +89,12 @@ def classify(issue, out):
         return "socket-option-bool"
     if key == "co-constraint:requires" and "decryption_key" in msg:
         return "artifact-key-without-algorithm"
+    if key.endswith(":in-dictionary-value"):
+        return "dictionary-values-unvalidated"
+    if key in ("object-ref-dangling", "object-ref-type") and len([x for x in path.split(".") if not x.startswith("[")]) > 3:
+        return "object-ref-nested-unchecked"
     if key == "empty-dictionary" and last == "extensions":
         return "empty-extensions-dictionary"
-    if key == "null-value" and path:
-        return "null-inside-dictionary"
     if key in ("empty-dictionary",) and path:
         return "empty-embedded-object"
     if key == "co-constraint:some-property":
